@@ -49,6 +49,6 @@ def NoLabelAtTop (p : List Stmt) : Prop :=
 
 /-- no padding `.align` stands where the reference cursor is 2^32 or beyond -/
 def NoAlignAtTop (p : List Stmt) : Prop :=
-  ∀ c n, (some c, Stmt.align n) ∈ Ref.trace none p → c < top ∨ c % n = 0
+  ∀ c n, (some c, Stmt.align n) ∈ Ref.trace none p → c < top ∨ Ref.size c (.align n) = 0
 
 end Trion.Layout
